@@ -2,7 +2,7 @@
    recursion arithmetic of the code that consumes untrusted bytes).
    Statements only; proofs are `exact` of lemmas in coq/C05/. *)
 From Coq Require Import ZArith List Bool Arith.
-From GD Require Import C05.Recurse C05.RecurseProofs C05.SieRead C05.SieReadProofs C05.GetIndex C05.LzmaWindow C05.LzmaWindowProofs C05.BzipWindow C05.BzipWindowProofs.
+From GD Require Import C05.Recurse C05.RecurseProofs C05.SieRead C05.SieReadProofs C05.GetIndex C05.LzmaWindow C05.LzmaWindowProofs C05.BzipWindow C05.BzipWindowProofs Gen.Limits.
 Import ListNotations.
 
 (* --- circular / over-deep field definitions ------------------------------ *)
@@ -64,6 +64,13 @@ Theorem sie_seek_loop_terminates :
   forall extra x sample,
     seek_loop (S (length (rest x)) + extra) x sample = seek_loop (S (length (rest x))) x sample.
 Proof. exact seek_loop_fuel_enough. Qed.
+
+(* every evaluator that carries the depth guard stops at the first error (facts regenerated from the source
+   by translate/tr_limits.py): this is the evaluation order `eval` models, and what keeps a call on a circular
+   definition from visiting (inputs)^depth nodes before it reports GD_E_RECURSE_LEVEL *)
+Theorem guarded_evaluators_stop_at_first_error :
+  forallb (fun x => snd x) stops_at_first_error = true /\ stops_at_first_error <> [].
+Proof. split; [vm_compute; reflexivity | discriminate]. Qed.
 
 (* --- the LZMA decode window (src/lzma.c), for every buffer size, look-back
        size, sample size, stream, and every behaviour of liblzma within the
